@@ -170,13 +170,31 @@ def parse_deadlock(d):
     return (int(m.group(1)), json.loads(m.group(2)), m.group(3).strip()) if m else (None, None, None)
 
 
-def run_batches_keep(ctx, exe, args, total, log_path, timeout=3000, max_deaths=6):
+def run_batches_keep(ctx, exe, args, total, log_path, timeout=None, max_deaths=6):
     """vlib.run_batches, but the events of an execution that died are kept (death["tail"]) instead of being dropped:
     whatever the monitor rejects in that prefix is a violation even though the process crashed afterwards."""
-    k, sums, deaths = 0, [], []
+    k, sums, deaths, retried = 0, [], [], set()
+    timeout = timeout or (1800 if ctx.quick else 6 * 3600)
     open(log_path, "w").close()
     while k < total:
         rc, so, se = vlib.run_exe(exe, list(args) + ["--from", k, "--to", total, "--log", log_path], timeout=timeout)
+        if rc == -9:
+            # the batch ran out of time (loaded machine): not a death of the driver.  Resume at the unit that was in
+            # progress; give up (broken check, never an alarm) if the same unit times out twice.
+            x = vlib.last_exec_id(log_path)
+            x = k if x is None or x < k else x
+            vlib.truncate_after_last_reset(log_path)
+            if x in retried:
+                deaths.append(dict(event="Hang", x=x, stderr_tail="batch timeout (%d s) twice in unit %d" % (timeout, x)))
+                break
+            retried.add(x)
+            # drop the executions of unit x recorded so far: the unit is redone from its beginning
+            lines = open(log_path, errors="replace").read().splitlines(True)
+            cut = next((i for i, l in enumerate(lines) if '"e":"Reset"' in l and '"x":%d,' % x in l), None)
+            if cut is not None:
+                open(log_path, "w").writelines(lines[:cut])
+            k = x
+            continue
         summ = None
         for ln in so.splitlines():
             if ln.startswith("{"):
@@ -410,7 +428,7 @@ def part_mel(rn):
     ctx, rep, q = rn.ctx, rn.ctx.rep, rn.ctx.quick
     scns = gen_mel(ctx.tier)
     sp = dump(ctx, "mel_scenarios.json", scns)
-    rn.submit("mel", scns, "dfs", ["--mode", "dfs", "--scenarios", sp, "--bound", 2 if q else 3, "--cap", 30 if q else 400], len(scns))
+    rn.submit("mel", scns, "dfs", ["--mode", "dfs", "--scenarios", sp, "--bound", 2 if q else 3, "--cap", 30 if q else 300], len(scns))
     rn.submit("mel", scns, "random", ["--mode", "random", "--scenarios", sp, "--seed", ctx.seed, "--cap", 15 if q else 100], len(scns))
     # the same programs through the type-erased / sub-scheduler wrappers
     sub = scns[:22]
@@ -421,7 +439,7 @@ def part_mel(rn):
         rn.submit("mel+" + wrap, ws, "random", ["--mode", "random", "--scenarios", wp, "--seed", ctx.seed + 1, "--cap", rcap if q else rcap * 8], len(ws))
     edges = os.path.join(ctx.work, "mel_edges.ndjson")
     rn.mc("ManualEventLoopMC", env={"SCENARIOS": sp, "EDGES": edges}, workers=1)
-    behs, nedges, ncover = behaviours_from_edges(ctx, edges, 400 if q else 8000, 0 if q else 1000)
+    behs, nedges, ncover = behaviours_from_edges(ctx, edges, 400 if q else 6000, 0 if q else 1000)
     bp = os.path.join(ctx.work, "mel_behaviours.ndjson")
     write_lines(bp, behs)
     nspur = sum(1 for b in behs for s in b["sched"] if s[1].endswith("!"))
@@ -479,7 +497,7 @@ def part_aq(rn):
     ctx, rep, q = rn.ctx, rn.ctx.rep, rn.ctx.quick
     scns = gen_aq(ctx.tier)
     sp = dump(ctx, "aq_scenarios.json", scns)
-    rn.submit("aq", scns, "dfs", ["--mode", "dfs", "--scenarios", sp, "--bound", 2 if q else 3, "--cap", 50 if q else 1000], len(scns))
+    rn.submit("aq", scns, "dfs", ["--mode", "dfs", "--scenarios", sp, "--bound", 2 if q else 3, "--cap", 50 if q else 700], len(scns))
     rn.submit("aq", scns, "random", ["--mode", "random", "--scenarios", sp, "--seed", ctx.seed, "--cap", 25 if q else 200], len(scns))
     has_rev_hooks = "sched.aq.r_load" in open(os.path.join(ctx.repo, "include/unifex/detail/atomic_intrusive_queue.hpp")).read()
     mc = [s for s in scns if s["items"] <= 3] if q else scns
@@ -511,7 +529,7 @@ def part_pool(rn):
     ctx, rep, q = rn.ctx, rn.ctx.rep, rn.ctx.quick
     scns = gen_ctx("pool", ctx.tier)
     sp = dump(ctx, "pool_scenarios.json", scns)
-    rn.submit("pool", scns, "dfs", ["--mode", "dfs", "--scenarios", sp, "--bound", 2 if q else 3, "--cap", 60 if q else 1500], len(scns))
+    rn.submit("pool", scns, "dfs", ["--mode", "dfs", "--scenarios", sp, "--bound", 2 if q else 3, "--cap", 60 if q else 1000], len(scns))
     rn.submit("pool", scns, "random", ["--mode", "random", "--scenarios", sp, "--seed", ctx.seed, "--cap", 40 if q else 400], len(scns))
     for wrap, dcap, rcap in (("any", 20, 12), ("ref", 10, 8), ("sub", 10, 8)):
         ws = wrapped(scns[:6], wrap)
@@ -525,7 +543,7 @@ def part_pool(rn):
     spe = dump(ctx, "pool_ex.json", ex)
     edges = os.path.join(ctx.work, "pool_edges.ndjson")
     rn.mc("StaticThreadPoolMC", cfg="StaticThreadPoolExport.cfg", env={"SCENARIOS": spe, "EDGES": edges}, workers=1)
-    behs, nedges, ncover = behaviours_from_edges(ctx, edges, 250 if q else 4000, 100 if q else 2000, idmap=lambda t: t + 89 if t > 10 else t)
+    behs, nedges, ncover = behaviours_from_edges(ctx, edges, 250 if q else 3000, 100 if q else 1500, idmap=lambda t: t + 89 if t > 10 else t)
     bp = os.path.join(ctx.work, "pool_behaviours.ndjson")
     write_lines(bp, behs)
     rep.note("pool: %d scenarios, %d exported, edges %d, edge-covering walks %d, behaviours replayed %d" % (len(scns), len(ex), nedges, ncover, len(behs)))
@@ -551,7 +569,7 @@ def part_ntc(rn):
     spe = dump(ctx, "ntc_ex.json", ex)
     edges = os.path.join(ctx.work, "ntc_edges.ndjson")
     rn.mc("NewThreadMC", cfg="NewThreadExport.cfg", env={"SCENARIOS": spe, "EDGES": edges}, workers=1)
-    behs, nedges, ncover = behaviours_from_edges(ctx, edges, 200 if q else 4000, 100 if q else 2000)
+    behs, nedges, ncover = behaviours_from_edges(ctx, edges, 200 if q else 3000, 100 if q else 1500)
     bp = os.path.join(ctx.work, "ntc_behaviours.ndjson")
     write_lines(bp, behs)
     allp = dump(ctx, "ntc_all_scenarios.json", mc)
